@@ -29,6 +29,10 @@ VARIANTS: dict[str, dict[str, str | None]] = {
         "c3": "def f( -> int:\n    return 1\n",
         "c4": "def f() -> int:\n    return ''\n\nclass K:\n    x: int = 0\n",
         "c-": None,
+        # the same interfaces with an import cycle b <-> c (c imports b inside a function): one SCC {b, c}
+        "c5": "def f() -> int:\n    return 1\n\nclass K:\n    x: int = 0\n\ndef cyc() -> None:\n    import b\n",
+        "c6": "def f() -> str:\n    return ''\n\nclass K:\n    x: int = 0\n\ndef cyc() -> None:\n    import b\n",
+        "c7": "def f() -> int:\n    return 1\n\nclass K:\n    x: str = ''\n\ndef cyc() -> None:\n    import b\n",
     },
     "b": {
         "b0": "from c import f as f, K as K\n",
